@@ -79,6 +79,19 @@ Fixpoint ns_refs (toks : list string) : result (list string) :=
   end.
 Definition ns_renaming (v : string) : result (list string) := ns_refs (split dot v).
 
+(* ---------- RenamingSubject.ToSubject: `len(tk) > 1 && tk[0] == '$'` ---------- *)
+Definition ns_to_subject_token (tk : string) : result bool :=
+  if Nat.ltb 1 (String.length tk)
+  then c <- char_at "ToSubject: tk[0]" tk 0 ;; Ok (Ascii.eqb c "$"%char)
+  else Ok false.
+Fixpoint ns_to_subject_toks (toks : list string) : result nat :=      (* number of tokens starting with $ *)
+  match toks with
+  | [] => Ok 0%nat
+  | tk :: r => b <- ns_to_subject_token tk ;; n <- ns_to_subject_toks r ;; Ok (if b then S n else n)
+  end.
+Definition ns_to_subject (s : string) : result nat :=
+  if negb (contains "$" s) then Ok 0%nat else ns_to_subject_toks (split dot s).
+
 (* ---------- cleanSubject: split[:i] ---------- *)
 Fixpoint ns_find_wc (l : list string) (i : nat) : option nat :=
   match l with [] => None | t :: r => if (t =? "*") || (t =? ">") then Some i else ns_find_wc r (S i) end.
@@ -206,7 +219,7 @@ Definition nscase_ok (c : nscase) : bool :=
   | NSContained s o obs => match ns_is_contained_in s o with Ok b => Bool.eqb b obs | Panic _ => false end
   | NSSubject v => is_ok (ns_subject_validate v)
   | NSTokenPos s n => is_ok (ns_export_token_position s n)
-  | NSRenaming v => is_ok (ns_renaming v)
+  | NSRenaming v => is_ok (ns_renaming v) && is_ok (ns_to_subject v)
   | NSClean s obs => match ns_clean_subject s with Ok r => r =? obs | Panic _ => false end
   | NSEntries subj l => is_ok (ns_entries_validate l) && is_ok (ns_wildcard_loop l)
                         && is_ok (ns_has_export_containing subj l) && is_ok (ns_sort l)
